@@ -58,7 +58,13 @@ package sio
 // off(h...): exactly the handlers that are not named stay, in their order (every occurrence of a named one goes).
 // hkeep(s, h, j) = how many of the first j elements of s are not in h.
 // hin(x, h): x occurs in h, as a forward scan (hfrom(x, h, m): x occurs at a position >= m)
-//@ define hfrom(x T, h []T, m int) bool = m >= len(h) ? false : ((m >= 0 && h[m] == x) || hfrom(x, h, m + 1))
+// hsame(a, b): the two stored handlers are the same handler - the same pointer, or pointers to the same function
+// (assumed meaning of sameHandler, which asks package reflect; Go has no finer identity of function values).
+//@ spec hsame(a T, b T) bool
+//@ func sameHandler
+//@   pure
+//@   ensures result == hsame(a, b)
+//@ define hfrom(x T, h []T, m int) bool = m >= len(h) ? false : ((m >= 0 && hsame(x, h[m])) || hfrom(x, h, m + 1))
 //@ define hin(x T, h []T) bool = hfrom(x, h, 0)
 //@ define hkeep(s []T, h []T, j int) int = j <= 0 ? 0 : hkeep(s, h, j - 1) + (hin(s[j-1], h) ? 0 : 1)
 
@@ -157,124 +163,107 @@ package sio
 //@   ensures len(e.eventsOnce[eventName]) == 0 [C18.es.getall.clears]
 //@   ensures forall n string :: n != eventName ==> e.eventsOnce[n] == old(e.eventsOnce[n]) [C18.es.getall.frame]
 
-// Manager.OffOpen(f) must name the handler that On/Once registered: a pointer that can identify a registered handler
-// (a pointer into the argument array never can).
+// Manager.OffOpen(f) hands the store one pointer per handler it was given (the store compares the functions they point to).
 //@ func (*Manager).OffOpen
 //@   requires hsValid(m.openHandlers)
 //@   callsite off
-//@     requires forall k int :: 0 <= k && k < len(arg0) ==> arg0[k] > 0 [C18.api.off.identity.Manager.OffOpen]
+//@     requires len(arg0) == len(_f) [C18.api.off.names.every.given.handler.Manager.OffOpen]
 
-// Manager.OffPing(f) must name the handler that On/Once registered: a pointer that can identify a registered handler
-// (a pointer into the argument array never can).
+// Manager.OffPing(f) hands the store one pointer per handler it was given (the store compares the functions they point to).
 //@ func (*Manager).OffPing
 //@   requires hsValid(m.pingHandlers)
 //@   callsite off
-//@     requires forall k int :: 0 <= k && k < len(arg0) ==> arg0[k] > 0 [C18.api.off.identity.Manager.OffPing]
+//@     requires len(arg0) == len(_f) [C18.api.off.names.every.given.handler.Manager.OffPing]
 
-// Manager.OffError(f) must name the handler that On/Once registered: a pointer that can identify a registered handler
-// (a pointer into the argument array never can).
+// Manager.OffError(f) hands the store one pointer per handler it was given (the store compares the functions they point to).
 //@ func (*Manager).OffError
 //@   requires hsValid(m.errorHandlers)
 //@   callsite off
-//@     requires forall k int :: 0 <= k && k < len(arg0) ==> arg0[k] > 0 [C18.api.off.identity.Manager.OffError]
+//@     requires len(arg0) == len(_f) [C18.api.off.names.every.given.handler.Manager.OffError]
 
-// Manager.OffClose(f) must name the handler that On/Once registered: a pointer that can identify a registered handler
-// (a pointer into the argument array never can).
+// Manager.OffClose(f) hands the store one pointer per handler it was given (the store compares the functions they point to).
 //@ func (*Manager).OffClose
 //@   requires hsValid(m.closeHandlers)
 //@   callsite off
-//@     requires forall k int :: 0 <= k && k < len(arg0) ==> arg0[k] > 0 [C18.api.off.identity.Manager.OffClose]
+//@     requires len(arg0) == len(_f) [C18.api.off.names.every.given.handler.Manager.OffClose]
 
-// Manager.OffReconnect(f) must name the handler that On/Once registered: a pointer that can identify a registered handler
-// (a pointer into the argument array never can).
+// Manager.OffReconnect(f) hands the store one pointer per handler it was given (the store compares the functions they point to).
 //@ func (*Manager).OffReconnect
 //@   requires hsValid(m.reconnectHandlers)
 //@   callsite off
-//@     requires forall k int :: 0 <= k && k < len(arg0) ==> arg0[k] > 0 [C18.api.off.identity.Manager.OffReconnect]
+//@     requires len(arg0) == len(_f) [C18.api.off.names.every.given.handler.Manager.OffReconnect]
 
-// Manager.OffReconnectAttempt(f) must name the handler that On/Once registered: a pointer that can identify a registered handler
-// (a pointer into the argument array never can).
+// Manager.OffReconnectAttempt(f) hands the store one pointer per handler it was given (the store compares the functions they point to).
 //@ func (*Manager).OffReconnectAttempt
 //@   requires hsValid(m.reconnectAttemptHandlers)
 //@   callsite off
-//@     requires forall k int :: 0 <= k && k < len(arg0) ==> arg0[k] > 0 [C18.api.off.identity.Manager.OffReconnectAttempt]
+//@     requires len(arg0) == len(_f) [C18.api.off.names.every.given.handler.Manager.OffReconnectAttempt]
 
-// Manager.OffReconnectError(f) must name the handler that On/Once registered: a pointer that can identify a registered handler
-// (a pointer into the argument array never can).
+// Manager.OffReconnectError(f) hands the store one pointer per handler it was given (the store compares the functions they point to).
 //@ func (*Manager).OffReconnectError
 //@   requires hsValid(m.reconnectErrorHandlers)
 //@   callsite off
-//@     requires forall k int :: 0 <= k && k < len(arg0) ==> arg0[k] > 0 [C18.api.off.identity.Manager.OffReconnectError]
+//@     requires len(arg0) == len(_f) [C18.api.off.names.every.given.handler.Manager.OffReconnectError]
 
-// Manager.OffReconnectFailed(f) must name the handler that On/Once registered: a pointer that can identify a registered handler
-// (a pointer into the argument array never can).
+// Manager.OffReconnectFailed(f) hands the store one pointer per handler it was given (the store compares the functions they point to).
 //@ func (*Manager).OffReconnectFailed
 //@   requires hsValid(m.reconnectFailedHandlers)
 //@   callsite off
-//@     requires forall k int :: 0 <= k && k < len(arg0) ==> arg0[k] > 0 [C18.api.off.identity.Manager.OffReconnectFailed]
+//@     requires len(arg0) == len(_f) [C18.api.off.names.every.given.handler.Manager.OffReconnectFailed]
 
-// clientSocket.OffConnect(f) must name the handler that On/Once registered: a pointer that can identify a registered handler
-// (a pointer into the argument array never can).
+// clientSocket.OffConnect(f) hands the store one pointer per handler it was given (the store compares the functions they point to).
 //@ func (*clientSocket).OffConnect
 //@   requires hsValid(s.connectHandlers)
 //@   callsite off
-//@     requires forall k int :: 0 <= k && k < len(arg0) ==> arg0[k] > 0 [C18.api.off.identity.clientSocket.OffConnect]
+//@     requires len(arg0) == len(_f) [C18.api.off.names.every.given.handler.clientSocket.OffConnect]
 
-// clientSocket.OffConnectError(f) must name the handler that On/Once registered: a pointer that can identify a registered handler
-// (a pointer into the argument array never can).
+// clientSocket.OffConnectError(f) hands the store one pointer per handler it was given (the store compares the functions they point to).
 //@ func (*clientSocket).OffConnectError
 //@   requires hsValid(s.connectErrorHandlers)
 //@   callsite off
-//@     requires forall k int :: 0 <= k && k < len(arg0) ==> arg0[k] > 0 [C18.api.off.identity.clientSocket.OffConnectError]
+//@     requires len(arg0) == len(_f) [C18.api.off.names.every.given.handler.clientSocket.OffConnectError]
 
-// clientSocket.OffDisconnect(f) must name the handler that On/Once registered: a pointer that can identify a registered handler
-// (a pointer into the argument array never can).
+// clientSocket.OffDisconnect(f) hands the store one pointer per handler it was given (the store compares the functions they point to).
 //@ func (*clientSocket).OffDisconnect
 //@   requires hsValid(s.disconnectHandlers)
 //@   callsite off
-//@     requires forall k int :: 0 <= k && k < len(arg0) ==> arg0[k] > 0 [C18.api.off.identity.clientSocket.OffDisconnect]
+//@     requires len(arg0) == len(_f) [C18.api.off.names.every.given.handler.clientSocket.OffDisconnect]
 
-// Namespace.OffConnection(f) must name the handler that On/Once registered: a pointer that can identify a registered handler
-// (a pointer into the argument array never can).
+// Namespace.OffConnection(f) hands the store one pointer per handler it was given (the store compares the functions they point to).
 //@ func (*Namespace).OffConnection
 //@   requires hsValid(n.connectionHandlers)
 //@   callsite off
-//@     requires forall k int :: 0 <= k && k < len(arg0) ==> arg0[k] > 0 [C18.api.off.identity.Namespace.OffConnection]
+//@     requires len(arg0) == len(_f) [C18.api.off.names.every.given.handler.Namespace.OffConnection]
 
-// Server.OffNewNamespace(f) must name the handler that On/Once registered: a pointer that can identify a registered handler
-// (a pointer into the argument array never can).
+// Server.OffNewNamespace(f) hands the store one pointer per handler it was given (the store compares the functions they point to).
 //@ func (*Server).OffNewNamespace
 //@   requires hsValid(s.newNamespaceHandlers)
 //@   callsite off
-//@     requires forall k int :: 0 <= k && k < len(arg0) ==> arg0[k] > 0 [C18.api.off.identity.Server.OffNewNamespace]
+//@     requires len(arg0) == len(_f) [C18.api.off.names.every.given.handler.Server.OffNewNamespace]
 
-// Server.OffAnyConnection(f) must name the handler that On/Once registered: a pointer that can identify a registered handler
-// (a pointer into the argument array never can).
+// Server.OffAnyConnection(f) hands the store one pointer per handler it was given (the store compares the functions they point to).
 //@ func (*Server).OffAnyConnection
 //@   requires hsValid(s.anyConnectionHandlers)
 //@   callsite off
-//@     requires forall k int :: 0 <= k && k < len(arg0) ==> arg0[k] > 0 [C18.api.off.identity.Server.OffAnyConnection]
+//@     requires len(arg0) == len(_f) [C18.api.off.names.every.given.handler.Server.OffAnyConnection]
 
-// serverSocket.OffError(f) must name the handler that On/Once registered: a pointer that can identify a registered handler
-// (a pointer into the argument array never can).
+// serverSocket.OffError(f) hands the store one pointer per handler it was given (the store compares the functions they point to).
 //@ func (*serverSocket).OffError
 //@   requires hsValid(s.errorHandlers)
 //@   callsite off
-//@     requires forall k int :: 0 <= k && k < len(arg0) ==> arg0[k] > 0 [C18.api.off.identity.serverSocket.OffError]
+//@     requires len(arg0) == len(_f) [C18.api.off.names.every.given.handler.serverSocket.OffError]
 
-// serverSocket.OffDisconnecting(f) must name the handler that On/Once registered: a pointer that can identify a registered handler
-// (a pointer into the argument array never can).
+// serverSocket.OffDisconnecting(f) hands the store one pointer per handler it was given (the store compares the functions they point to).
 //@ func (*serverSocket).OffDisconnecting
 //@   requires hsValid(s.disconnectingHandlers)
 //@   callsite off
-//@     requires forall k int :: 0 <= k && k < len(arg0) ==> arg0[k] > 0 [C18.api.off.identity.serverSocket.OffDisconnecting]
+//@     requires len(arg0) == len(_f) [C18.api.off.names.every.given.handler.serverSocket.OffDisconnecting]
 
-// serverSocket.OffDisconnect(f) must name the handler that On/Once registered: a pointer that can identify a registered handler
-// (a pointer into the argument array never can).
+// serverSocket.OffDisconnect(f) hands the store one pointer per handler it was given (the store compares the functions they point to).
 //@ func (*serverSocket).OffDisconnect
 //@   requires hsValid(s.disconnectHandlers)
 //@   callsite off
-//@     requires forall k int :: 0 <= k && k < len(arg0) ==> arg0[k] > 0 [C18.api.off.identity.serverSocket.OffDisconnect]
+//@     requires len(arg0) == len(_f) [C18.api.off.names.every.given.handler.serverSocket.OffDisconnect]
 
 
 // OffAll leaves every registry of the object empty.
